@@ -1101,7 +1101,7 @@ impl<'a> Gen<'a> {
                     2 => vec![call("ext", vec![Expr::str("n")]), Expr::Nil],
                     _ => vec![Expr::Nil],
                 };
-                if a != c {
+                if a != c || !self.avoid("local_duplicate_names_with_nil") {
                     out.push(Stmt::Local { names: vec![b(&a), b(&c)], values: e, is_const: false });
                     self.undeclare(&a);
                     self.undeclare(&c);
